@@ -187,7 +187,7 @@ static void gen_c13(Plan& p, Rng& r) {
             uint32_t c = r.below(10);
             if (c < 7) o.n["dirfd_dir"] = r.below(6); else if (c < 8) o.n["dirfd_closed"] = r.below(4); else if (c < 9) o.n["dirfd_never"] = r.below(3); else o.n["dirfd"] = r.below(3);
             o.n["oflags"] = (o.path == "sub" || o.path == ".") ? (r.below(2) ? 2 : 0) : (r.below(2) ? 1 : 0); o.n["rights"] = (int64_t)((o.path == "sub" || o.path == ".") ? R_READ : (R_READ | R_WRITE));
-            if (faults && r.below(4) == 0) { o.fault = "open_emfile"; o.fault_nth = 1; }
+            if (faults && r.below(4) == 0) { o.fault = r.below(2) ? "open_emfile" : "strndup_fail"; o.fault_nth = 1; }
             p.ops.push_back(o);
         } else if (k < 52) {
             Op o = mkop("fd_close", r); uint32_t c = r.below(10);
